@@ -434,7 +434,7 @@ def run(ctx):
     ctx.build("C18", deps=["Model/TaskGraph.v"])
     quick = ctx.tier == "quick"
     rng = ctx.rng
-    n = 700 if quick else 10000
+    n = 550 if quick else 10000
     kinds = ["sched", "sched", "sched", "releasable", "notify", "notify", "ready", "resolve", "topo", "dfs", "flags"]
     triples = [rand_case(rng, kinds) for _ in range(n)]
     triples += [sane_case(rng) for _ in range(n // 4)]
@@ -484,6 +484,44 @@ def run(ctx):
     for k, w in enumerate(witnesses):
         if res[w_at + k] != w["expect"]:
             ctx.cov.setdefault("notes", []).append("witness %s now answers %s (recorded %s)" % (w["name"], res[w_at + k], w["expect"]))
+
+    # ---- S-fallback: a task scheduled ahead of its release, released while SCHEDULED, then unscheduled
+    # (REAL Task.schedule / release / unschedule calls): it is VIRTUAL again, and must still be offered
+    fb = []
+    while len(fb) < (40 if quick else 600):
+        a, t, _o = sane_case(rng)
+        par = parents_of(a)
+        cand = [n2 for n2 in key_order(a) if par[n2] and all(t[p][0] == 7 for p in par[n2])]
+        if not cand:
+            continue
+        x = rng.choice(cand)
+        now = _o[1]["time"]
+        rel_t = max([t[p][8] for p in par[x]] + [0])
+        o = dict(_o[1], lookahead=rng.choice([0, 0, 5]))
+        fb.append((a, t, x, rel_t, o))
+    fb_impl = core.run_impl("taskgraph.py", {"cases": [{"graphs": [spec_of(a, t)], "op": ["fallback", x, max(0, r - 2), r, o, []]}
+                                                       for a, t, x, r, o in fb]})["results"]
+    fb_cases = []
+    for (a, t, x, r, o), (after, res_s, res_r) in zip(fb, fb_impl):
+        t2 = {k2: list(v2) for k2, v2 in t.items()}
+        t2[x][0], t2[x][1] = after[0], after[1]          # the state the REAL calls left the task in
+        t2[x][3] = t2[x][9][0]                           # schedule() stored the strategy's runtime
+        t2[x][7] = None
+        fb_cases.append(("(%s, %s)" % (g_graph(a, t2), g_op(["sched", o, []])), res_s, [a, t2, x, o]))
+        if after[0] != 1:
+            ctx.cov.setdefault("notes", []).append("fallback: task left in state %s" % after[0])
+        elif res_s[0] == 0 and x not in res_s[1][0] and r <= o["time"] + o["lookahead"]:
+            ctx.violation("fallback%d" % x, {"stream": "S-fallback", "mapping": a, "tasks": t, "task": x, "released_at": r,
+                                             "options": o, "frontier": res_s, "releasable": res_r,
+                                             "what": "a task that was scheduled ahead, released and unscheduled (now VIRTUAL, all "
+                                                     "parents COMPLETED) is not offered: starvation"})
+    try:
+        for idx, mv in ctx.model_stream("S-fallback", HEADER, "tgraph * tg_op", "tg_observe", fb_cases)[:3]:
+            ctx.violation("fallbackcorr%d" % idx, {"stream": "S-fallback", "case": fb_cases[idx][2], "implementation": fb_cases[idx][1],
+                                                   "model": mv, "what": "frontier after schedule-ahead / release / unschedule "
+                                                   "differs from the model on the resulting state"})
+    except core.ModelEvalError as e:
+        ctx.broken.append({"kind": "correspondence", "name": "S-fallback", "detail": str(e)[-600:]})
 
     # ---- S-workload
     wl_cases = []
